@@ -241,6 +241,26 @@ func init() {
 					emit(Case{Line: fmt.Sprintf("wf %d %d", n, k), Kind: "write-failure"})
 				}
 			}
+			// channel level: result sets over the data types of the fields group, cut at every offset (quick: a
+			// sample of the offsets); the rest never arrives. The complete response rides along (`W:`) for the
+			// oracle only.
+			rowFields := collectRowFields(tier, rng)
+			nrs := 40
+			if tier == "thorough" {
+				nrs = 400
+			}
+			for i := 0; i < nrs && len(rowFields) > 0; i++ {
+				body := resultSetResponse(rng, rowFields)
+				if len(body) == 0 || len(body) > 600 {
+					continue
+				}
+				for k := 1; k < len(body); k++ {
+					if tier != "thorough" && len(body) > 80 && k%3 != i%3 {
+						continue
+					}
+					emit(Case{Line: fmt.Sprintf("rx 0 0 b0:%s W:%s", hx(body[:k]), hx(body)), Kind: "channel-prefix"})
+				}
+			}
 			// C14: every byte offset × failure kinds. EOF inside a packet costs the 1 s read timeout:
 			// in the quick tier every offset is tried with reset and hang, EOF at the packet boundaries
 			// and at a sample of inner offsets.
@@ -262,6 +282,37 @@ func init() {
 		}
 	}
 	oracle := func(line, out string) string {
+		if strings.HasPrefix(line, "rx ") {
+			// channel level: the first bytes of a response (the rest never arrives). What is delivered is a
+			// prefix of what the complete response delivers, without any error and without a supplied DONE.
+			f := strings.Fields(line)
+			if len(f) != 5 || !strings.HasPrefix(f[3], "b0:") || !strings.HasPrefix(f[4], "W:") {
+				return ""
+			}
+			if out == "panic" || out == "timeout" {
+				return "an incomplete response neither crashes nor hangs the channel"
+			}
+			whole := rxWholeAnswerLine(0, 0, "b1:"+f[4][2:])
+			dOf := func(s string) (string, bool) {
+				i, j := strings.Index(s, "D=["), strings.Index(s, "] E=")
+				if i < 0 || j < i {
+					return "", false
+				}
+				return s[i+3 : j], true
+			}
+			dw, ok1 := dOf(whole)
+			dp, ok2 := dOf(out)
+			if !ok1 || !ok2 {
+				return ""
+			}
+			if !strings.Contains(out, "] E=0 ") {
+				return "never a package assembled from incomplete data: an incomplete response queues no error"
+			}
+			if dp != "" && !(dw == dp || strings.HasPrefix(dw, dp+" | ")) {
+				return "the consumer receives exactly the packages that arrived completely — never a package assembled from incomplete data"
+			}
+			return ""
+		}
 		if strings.HasPrefix(line, "wf ") {
 			f := strings.Fields(line)
 			n, _ := strconv.Atoi(f[1])
@@ -305,11 +356,16 @@ func init() {
 				if strings.HasPrefix(line, "wf ") {
 					return wfImpl(line)
 				}
+				if strings.HasPrefix(line, "rx ") {
+					return rxImpl(line)
+				}
 				return rdImpl(line)
 			},
 			FindingKey: func(line, out, clause string) string { return clause },
-			Nontrivial: func(line, out string) bool { return strings.Contains(line, ",") || strings.HasPrefix(line, "wf ") },
-			NoShrink:   true, Timeout: 20 * time.Second, Timed: true,
+			Nontrivial: func(line, out string) bool {
+				return strings.Contains(line, ",") || strings.HasPrefix(line, "wf ") || strings.HasPrefix(line, "rx ")
+			},
+			NoShrink: true, Timeout: 20 * time.Second, Timed: true,
 			Rule:        "the real reader goroutine over the in-memory transport: streams of 1..3 packets (bodies of 1..5 DONE packages, header-only packets) cut at every byte offset and ended by reset / hang (every offset) or EOF (packet boundaries and sampled inner offsets in the quick tier, every offset in the thorough tier; an EOF inside a packet surfaces after the 1 s read timeout), with read schedules that split headers and bodies; failures during a request write: requests of 1..8 packets whose k-th transport write fails, for every k. Non-trivial = more than one packet",
 			Assumptions: []string{"net.Conn read semantics: n > 0 ⇒ err = nil; a zero-length read returns (0, nil)", "PacketReadTimeout = 1 s in the harness"},
 		}
